@@ -911,9 +911,13 @@ fn run_one(work: &Path, sc: &Scenario, tn: bool) -> SysReport {
     // ---- phase A1: other thread counts, pre-states of the generated paths, --needed: same verdict and tree as the base run
     for mode in [Mode::Build, Mode::InMemoryBuild] {
         for pname in ALL_PRESTATES {
-            for threads in [1usize, 4] {
+            let tcs: Vec<usize> = if crate::deep() { vec![1, 2, 4, 8, 16] } else { vec![1, 4] };
+            for threads in tcs {
                 let timed = sc.name.starts_with("timed_");
-                if (threads == 4 && pname != "absent" && !timed) || (threads == 1 && pname != "absent" && timed) {
+                if !crate::deep() && ((threads == 4 && pname != "absent" && !timed) || (threads == 1 && pname != "absent" && timed)) {
+                    continue;
+                }
+                if crate::deep() && pname != "absent" && !(threads == 1 || threads == 4) {
                     continue;
                 }
                 if matches!(mode, Mode::Build) && pname == "absent" && threads == 1 {
